@@ -23,7 +23,7 @@ ASSUME = [
 RECOVERED = {"C01": "out", "C12": "out", "C04": "out", "C05": "out", "C07": "out", "C08": "out", "C10": "out", "C13": "out", "C20": "in"}
 
 
-def seq_spec(prop, sweep, quick, thorough, rule, after_op=None, tier_kw=None, pre_op=None, **kw):
+def seq_spec(prop, sweep, quick, thorough, rule, after_op=None, tier_kw=None, pre_op=None, final=None, extend_case=None, **kw):
     def gen(rng, tier, seed):
         if prop == "C10" and rng.random() < (0.002 if tier == "quick" else 0.004):
             from .pagination import gen_deep_chain
@@ -34,6 +34,8 @@ def seq_spec(prop, sweep, quick, thorough, rule, after_op=None, tier_kw=None, pr
         c = g.case(seed)
         if mem:
             c["ops"] = [o for o in c["ops"] if o["op"] != "reopen"]
+        if extend_case is not None:
+            extend_case(c, g, rng)
         if prop in RECOVERED and rng.random() < 0.15:
             from .recovered import add_recovered
 
@@ -49,7 +51,7 @@ def seq_spec(prop, sweep, quick, thorough, rule, after_op=None, tier_kw=None, pr
             from .recovered import run_recovered
 
             return run_recovered(case, prop, sweep, RECOVERED[prop])
-        return run_sequential(case, sweep, prop=prop, after_op=after_op, pre_op=pre_op)
+        return run_sequential(case, sweep, prop=prop, after_op=after_op, pre_op=pre_op, final=(lambda ctx: final(ctx, case)) if final is not None else None)
 
     register(
         Spec(
@@ -101,7 +103,7 @@ register(
         assumptions=ASSUME,
     )
 )
-seq_spec("C10", P.sweep_C10, 2500, 50000, "seeded link histories, then token chains for every webentity x source-page counts x 3 switch settings compared with the unpaginated answer of the same index; non-trivial when a chain needs >= 3 calls; distinct = distinct event digests")
+seq_spec("C10", P.sweep_C10, 2500, 50000, final=P.final_C10, extend_case=P.extend_C10, rule="seeded link histories, then token chains for every webentity x source-page counts x 3 switch settings compared with the unpaginated answer of the same index; non-trivial when a chain needs >= 3 calls; distinct = distinct event digests")
 
 # ---------------------------------------------------------------------------
 from . import queries as QQ
